@@ -3,6 +3,7 @@ mod common;
 mod frag;
 mod values;
 mod chan;
+mod script;
 
 use serde_json::json;
 
@@ -27,6 +28,7 @@ fn main() {
         "values" => values::run(),
         "chan" => chan::run(args.get(2).map(|s| s.as_str()).unwrap_or("thread")),
         "agent" => chan::agent_main(&args[2]),
+        "script" => script::run(),
         _ => {
             eprintln!("usage: vharness <role> ...");
             std::process::exit(2);
